@@ -446,6 +446,33 @@ func VerifH03d() {
 func VerifH02e() {
 	s := verifBuildState(2)
 	o1, o2 := nd.Choice("writer1", 3), nd.Choice("writer2", 3)
+	if nd.Choice("a-transaction-has-ended-before", 2) == 1 {
+		// transaction 1 wrote and was rolled back: its store is in the pool; then transactions 1
+		// (begun again) and 2 make their FIRST writes at the same time, both acquiring from the pool
+		if !s.begun[1] {
+			s.beginTx(1)
+		}
+		s.store(1, "a")
+		var rest []verifVer
+		for _, v := range s.vs {
+			if v.owner != 1 {
+				rest = append(rest, v)
+			}
+		}
+		_ = s.u.DeleteTx(s.ctx, verifTxIds[1])
+		s.vs = rest
+		for _, v := range s.vs {
+			if v.owner == 2 {
+				nd.Assume(false) // transaction 2 must not have written yet
+			}
+		}
+		s.beginTx(1)
+		if !s.begun[2] {
+			s.beginTx(2)
+		}
+		o1, o2 = 1, 2
+		nd.Reach("H02e.pool-not-empty")
+	}
 	if (o1 != 0 && !s.begun[o1]) || (o2 != 0 && !s.begun[o2]) {
 		nd.Assume(false)
 	}
@@ -477,5 +504,16 @@ func VerifH02e() {
 		}
 	}
 	check(&s.u.allStore, "H02e.all-store")
+	// every registered transaction has a store of its own, and the pools are sound
+	var live []*mcore.Transaction
+	for t := 0; t < 3; t++ {
+		if tx, ok := s.u.txStore.Get(verifTxIds[t]); ok {
+			for _, o := range live {
+				nd.Assert(o != tx, "H02e.two-transactions-share-one-store")
+			}
+			live = append(live, tx)
+		}
+	}
+	nd.Assert(mcore.VerifPoolSound(s.u.txPool, live), "H02e.pool-holds-a-live-transaction-store")
 	nd.Reach("H02e.end")
 }
